@@ -174,7 +174,7 @@ var responseSpecs = []layerSpec{
 		}},
 	{Pkg: "pkg/ipmi", Type: "OpenSessionRsp", Method: "DecodeFromBytes", Ref: "IPMI v2.0 §13.18",
 		Want: map[string][]string{
-			"ManagedSystemSessionID": {"0", "{d11[7:0],d10[7:0],d9[7:0],d8[7:0]}"},
+			"ManagedSystemSessionID":          {"0", "{d11[7:0],d10[7:0],d9[7:0],d8[7:0]}"},
 			"AuthenticationPayload.Algorithm": {"<unset>", "d16[5:0]"}, "IntegrityPayload.Algorithm": {"<unset>", "d24[5:0]"}, "ConfidentialityPayload.Algorithm": {"<unset>", "d32[5:0]"},
 		}},
 	{Pkg: "pkg/ipmi", Type: "RAKPMessage2", Method: "DecodeFromBytes", Ref: "IPMI v2.0 §13.21",
@@ -198,9 +198,9 @@ var responseSpecs = []layerSpec{
 		Want: map[string][]string{
 			"Encrypted": {"d1[7]"}, "Authenticated": {"d1[6]"}, "PayloadDescriptor.PayloadType": {"d1[5:0]"},
 			"PayloadDescriptor.Enterprise": {"0", "{d5[7:0],d4[7:0],d3[7:0],d2[7:0]}"}, "PayloadDescriptor.PayloadID": {"0", "{d7[7:0],d6[7:0]}"},
-			"ID":       {"{d11[7:0],d10[7:0],d9[7:0],d8[7:0]}", "{d5[7:0],d4[7:0],d3[7:0],d2[7:0]}"},
-			"Sequence": {"{d15[7:0],d14[7:0],d13[7:0],d12[7:0]}", "{d9[7:0],d8[7:0],d7[7:0],d6[7:0]}"},
-			"Length":   {"{d11[7:0],d10[7:0]}", "{d17[7:0],d16[7:0]}"},
+			"ID":                 {"{d11[7:0],d10[7:0],d9[7:0],d8[7:0]}", "{d5[7:0],d4[7:0],d3[7:0],d2[7:0]}"},
+			"Sequence":           {"{d15[7:0],d14[7:0],d13[7:0],d12[7:0]}", "{d9[7:0],d8[7:0],d7[7:0],d6[7:0]}"},
+			"Length":             {"{d11[7:0],d10[7:0]}", "{d17[7:0],d16[7:0]}"},
 			"BaseLayer.Contents": {"d[0:12]", "d[0:18]"},
 			"BaseLayer.Payload":  {"d[12:+{d11[7:0],d10[7:0]}]", "d[18:+{d17[7:0],d16[7:0]}]"},
 		}},
@@ -228,20 +228,19 @@ var responseSpecs = []layerSpec{
 		Want: map[string][]string{"PrimaryLANOOBChannel": {"d3[7:0]"}, "SecondaryLANOOBChannel": {"d4[7:0]"}, "SerialOOBChannel": {"d5[7:0]"}, "BaseLayer.Contents": {"d[0:6]"}}},
 }
 
-
 // ---------------------------------------------------------------- shaped serialisers (C06, C03)
 
 var msgWidths = map[string]int{"RemoteLUN": 2, "LocalLUN": 2, "Sequence": 6, "Operation.Function": 6}
 
 func msgCommon(extra map[string][]string) map[string][]string {
 	m := map[string][]string{
-		"pre[0]": {"f:RemoteAddress[7:0]"},
-		"pre[1]": {"{f:Operation.Function[5:0],f:RemoteLUN[1:0]}"}, // NetFn[7:2] / LUN[1:0]
-		"pre[2]": {"checksum:pre[0:2]()", "f:Checksum1[7:0]"},       // checksum over bytes 0..1 (or the caller's when not computing)
-		"pre[3]": {"f:LocalAddress[7:0]"},
-		"pre[4]": {"{f:Sequence[5:0],f:LocalLUN[1:0]}"},
-		"pre[5]": {"f:Operation.Command[7:0]"},
-		"app[0]": {"checksum:buf[3:+len(buffer) -3]()", "f:Checksum2[7:0]"}, // checksum over byte 3 … last data byte
+		"pre[0]":  {"f:RemoteAddress[7:0]"},
+		"pre[1]":  {"{f:Operation.Function[5:0],f:RemoteLUN[1:0]}"}, // NetFn[7:2] / LUN[1:0]
+		"pre[2]":  {"checksum:pre[0:2]()", "f:Checksum1[7:0]"},      // checksum over bytes 0..1 (or the caller's when not computing)
+		"pre[3]":  {"f:LocalAddress[7:0]"},
+		"pre[4]":  {"{f:Sequence[5:0],f:LocalLUN[1:0]}"},
+		"pre[5]":  {"f:Operation.Command[7:0]"},
+		"app[0]":  {"checksum:buf[3:+len(buffer) -3]()", "f:Checksum2[7:0]"}, // checksum over byte 3 … last data byte
 		"len app": {"1"},
 	}
 	for k, v := range extra {
